@@ -115,6 +115,17 @@ for label, npar, mk in instances():
                         fails.append("sparse_matrix")
                 except Exception as e:
                     fails.append(f"sparse_matrix raised {type(e).__name__}")
+                # every wire order (incl. cyclic ones, which are not their own inverse) and an extra wire
+                try:
+                    import itertools as _it
+                    perms = list(_it.permutations(ws)) if len(ws) <= 3 else [tuple(ws[1:] + ws[:1]), tuple(ws[-1:] + ws[:-1])]
+                    for pm in perms[:6]:
+                        for wo in (list(pm), list(pm[:1]) + ["__extra__"] + list(pm[1:])):
+                            if not np.allclose(nop.sparse_matrix(wire_order=wo).toarray(), np.asarray(qp.matrix(nop, wire_order=wo)), atol=1e-8):
+                                fails.append(f"sparse_matrix(wire_order={wo})")
+                                break
+                except Exception as e:
+                    fails.append(f"sparse_matrix(wire_order) raised {type(e).__name__}")
             if npar == 1 and getattr(nop, "has_generator", False):
                 G = np.asarray(qp.matrix(qp.generator(nop, format="observable"), wire_order=ws)).astype(complex)
                 if not np.allclose(sla.expm(1j * th[0] * G), M, atol=1e-8):
